@@ -344,15 +344,16 @@ theorem code_lockstep (limit : Nat) : ∀ (items : List (Nat × Item)) (cur : Na
 
 /-- a label is given the address at which the next item of its segment is emitted (pass 1 step) -/
 theorem label_is_next_position (t : SegT) (limit : Nat) (ln : Nat) (name : Str) (rest : List (Nat × Item))
-    (cur : Nat) (ctx : Ctx) (hlim : ¬ cur > limit) (hnew : (alookup name ctx.labels).isSome = false) :
+    (cur : Nat) (ctx : Ctx) (hlim : ¬ cur > limit) (hnew : ctx.exist name = false) :
     pass1Items t limit ((ln, .label name) :: rest) cur ctx =
       pass1Items t limit rest cur { ctx with labels := ainsert name (t, cur % 4294967296) ctx.labels } := by
   conv => lhs; unfold pass1Items
   simp [hlim, hnew]
 
-/-- a duplicate label fails the build, naming the line -/
+/-- a label whose name is already taken (by a label, .equ, .set, .define or .def) fails the
+    build, naming the line -/
 theorem duplicate_label_error (t : SegT) (limit : Nat) (ln : Nat) (name : Str) (rest : List (Nat × Item))
-    (cur : Nat) (ctx : Ctx) (hlim : ¬ cur > limit) (hdup : (alookup name ctx.labels).isSome = true) :
+    (cur : Nat) (ctx : Ctx) (hlim : ¬ cur > limit) (hdup : ctx.exist name = true) :
     pass1Items t limit ((ln, .label name) :: rest) cur ctx = .error ⟨some ln, "label-twice"⟩ := by
   conv => lhs; unfold pass1Items
   simp [hlim, hdup, lineErr]
